@@ -59,7 +59,15 @@ pub enum TSpec {
     },
     /// a collection whose child is a plain `Vec<&Leaf>` / `Box<[&Leaf]>` of the library's own
     /// impls (its guard is the library's guard for slices, not a harness container); top level only
-    Slice { kind: CollKind, boxed: bool, members: Vec<Lid>, poison: bool },
+    Slice {
+        kind: CollKind,
+        boxed: bool,
+        members: Vec<Lid>,
+        poison: bool,
+        /// the child is a plain array `[&Leaf; N]` (N = 2 boxed, N = 3 retrying) instead of a list
+        #[serde(default)]
+        array: bool,
+    },
     /// a sorting collection over the members of by-reference unit `unit`, reached through
     /// whatever shared access the owned collection gives to its child. It must give none (an
     /// owned collection locks in listing order): the target then does not exist.
@@ -156,6 +164,9 @@ pub enum Release {
     /// the guard is moved to another thread, which drops it (possible only if the guard, key
     /// and all, is Send; otherwise it is dropped here)
     SendAway,
+    /// the guard is consumed by value through `IntoIterator` (if its type offers that), the
+    /// items are kept and the iterator is dropped; otherwise the guard is dropped
+    TakeApart,
 }
 
 #[derive(Clone, Copy, PartialEq, Eq, Debug, Serialize, Deserialize)]
